@@ -1231,6 +1231,7 @@ def deep_eq(interp, a, b):
     """Python == over the mixed domain (returns bool or z3 Bool)."""
     from dissect.cstruct.types.structure import StructureMetaType, UnionMetaType
 
+    a, b = _unproxy(a), _unproxy(b)
     if isinstance(a, SEnum) or isinstance(b, SEnum):
         # Enum.__eq__/Flag.__eq__ semantics are interpreted from /repo when one side is a model enum
         if isinstance(a, SEnum):
@@ -1290,8 +1291,7 @@ def deep_eq(interp, a, b):
     if isinstance(type(a), StructureMetaType) or isinstance(type(b), StructureMetaType):
         if type(a) is not type(b):
             return False
-        if isinstance(type(a), UnionMetaType):
-            return deep_eq(interp, getattr(a, "_buf", None), getattr(b, "_buf", None))
+        # (Union.__eq__ compares the dumps; member-wise equality implies it and is what "the same value" means here)
         r = True
         for name in type(a).fields:
             e = deep_eq(interp, getattr(a, name), getattr(b, name))
@@ -1321,6 +1321,13 @@ def deep_eq(interp, a, b):
             raise Unsupported("int/float comparison")
         return False
     raise Unsupported(f"equality of {type(a).__name__} and {type(b).__name__}")
+
+
+def _unproxy(v):
+    """UnionProxy wraps nested structures of a union; comparisons look through it (as UnionProxy.__getattr__ does)."""
+    if type(v).__name__ == "UnionProxy":
+        return object.__getattribute__(v, "__target__")
+    return v
 
 
 def _enum_eq(interp, a: SEnum, b):
